@@ -1485,11 +1485,20 @@ def mark_job_complete_scenario(prog: sf.SqlProgram, groups: bool = True) -> Tupl
         ea = m.alias['E']
         return [(('jobs', 'child'), {ea: ('job_parents', dict(batch_id=B, job_id=CH, parent_id=J), ['batch_id', 'job_id', 'parent_id'])})]
 
+    def no_closure_filter(m: Match, st: N, table: str) -> None:
+        ca = m.alias['C']
+        bad = [c for c in m.residual if any(x.kind == 'col' and ((len(x.parts) > 1 and x.parts[-2].lower().strip('`') in (ca, CLOSURE)) or (len(x.parts) == 1 and x.parts[0].lower() in ('ancestor_id', 'level')))
+                                          for x in c.walk())]
+        if bad:
+            raise Mismatch(table, st, f'the self-and-ancestor rows of the job\'s group are additionally filtered by `{text(bad[0])[:60]}`: the groups it excludes are not written')
+
     def tallies(ex: AbsExec, m: Match, st: N):
+        no_closure_filter(m, st, TALLY)
         ca = m.alias['C']
         return [((TALLY, t), {ca: (CLOSURE, dict(batch_id=B, job_group_id=G, ancestor_id=gid[t]), ['batch_id', 'job_group_id', 'ancestor_id', 'level'])}) for t in ANC_TAGS]
 
     def groups(ex: AbsExec, m: Match, st: N):
+        no_closure_filter(m, st, 'job_groups')
         ca = m.alias['C']
         return [(('job_groups', t), {ca: (CLOSURE, dict(batch_id=B, job_group_id=G, ancestor_id=gid[t]), ['batch_id', 'job_group_id', 'ancestor_id', 'level'])}) for t in ANC_TAGS]
 
@@ -1593,6 +1602,26 @@ def _lin_atom(ex: AbsExec, c: N, frame: Frame, colsym: Callable[[N], Optional[Li
     return '=0', d
 
 
+def _same_atoms(ex: AbsExec, got: List[Tuple[str, Lin]], want: List[Tuple[str, Lin]]) -> Tuple[List[int], List[int]]:
+    """Match order atoms by identity of their normal forms in the current case (no split): (indices of `got` that are no wanted atom,
+    indices of `want` that are missing)."""
+    def same(a: Lin, b: Lin) -> bool:
+        d = ex.case.norm(a - b)
+        if d.is_const():
+            return d.const == 0
+        lo, hi = ex.case.bounds(d)
+        return lo is not None and lo == hi == 0
+    used: Set[int] = set()
+    extra = []
+    for i, (k, l) in enumerate(got):
+        hit = [j for j, (k2, l2) in enumerate(want) if k2 == k and same(l, l2)]
+        if hit:
+            used.add(hit[0])
+        else:
+            extra.append(i)
+    return extra, [j for j in range(len(want)) if j not in used]
+
+
 def commit_scenario(prog: sf.SqlProgram) -> Tuple[Scenario, Dict[str, Any]]:
     """Roles: the update row (B, U) with its job count NU and first job id S; the batch row; a generic job group SG that has staging
     rows for this update (sum of their n_jobs: SS); a generic job CH of the update with its parent edges abstracted to COUNT CLASSES:
@@ -1602,8 +1631,8 @@ def commit_scenario(prog: sf.SqlProgram) -> Tuple[Scenario, Dict[str, Any]]:
     B, SG, CH = Sym('batch'), Sym('staged_group'), Sym('job_of_update')
     U = Lin({'update_id': 1}, 0)
     enums = {'committed': [0, 1], 'child_cancelled': [0, 1]}
-    ivals: Dict[str, Tuple[Optional[int], Optional[int]]] = {'update_id': (1, None), 'NU': (0, None), 'SR': (0, None), 'SS': (0, None), 'd_earlier': (1, None), 'd_same': (0, None), 'one_row': (1, None)}
-    labels = {'update_id': 'update id', 'NU': 'batch_updates.n_jobs of the update', 'SR': 'staged jobs of the root group for this update', 'SS': 'sum of the staging rows of the group for this update',
+    ivals: Dict[str, Tuple[Optional[int], Optional[int]]] = {'update_id': (1, None), 'NU': (0, None), 'SR': (0, None), 'd_earlier': (1, None), 'd_same': (0, None), 'one_row': (1, None), 'other_rows': (0, None)}
+    labels = {'update_id': 'update id', 'NU': 'batch_updates.n_jobs of the update', 'SR': 'staged jobs of the root group for this update', 'other_rows': 'sum of n_jobs over the OTHER staging rows (other inst_coll / token) of the group for this update',
               'committed': 'batch_updates.committed before', 'child_cancelled': 'job.cancelled before', 'v0': 'stored jobs.n_pending_parents before the commit', 'one_row': 'n_jobs of ONE staging row (one inst_coll / token) of the group',
               'd_earlier': 'start_job_id of the update minus the id of an earlier parent', 'd_same': 'id of a same-update parent minus start_job_id of the update'}
     for pc in PARENT_CLASSES:
@@ -1685,8 +1714,9 @@ def commit_scenario(prog: sf.SqlProgram) -> Tuple[Scenario, Dict[str, Any]]:
                 continue
             ags = _agg_nodes(c)
             canonical = grouped_by_group and len(ags) == 1 and ags[0].name == 'SUM' and text(ags[0].args[0]).lower().split('.')[-1] == 'n_jobs'
-            symname = 'SS' if canonical else ('sum over ' + ('the whole update' if not grouped_by_group else 'the group') + ' of ' + (text(ags[0].args[0]) if ags else text(c))[:30])
-            node = sf.subst(c, lambda n: N('lit', value=Lin({symname: 1}, 0)) if any(n is a_ for a_ in ags) or (ags and n.kind == 'func' and text(n) == text(ags[0])) else None)
+            symname = '@SS' if canonical else ('sum over ' + ('the whole update' if not grouped_by_group else 'the group') + ' of ' + (text(ags[0].args[0]) if ags else text(c))[:30])
+            val = Lin({'one_row': 1, 'other_rows': 1}, 0) if symname == '@SS' else Lin({symname: 1}, 0)
+            node = sf.subst(c, lambda n: N('lit', value=val) if any(n is a_ for a_ in ags) or (ags and n.kind == 'func' and text(n) == text(ags[0])) else None)
             drow[name] = ex.value_or_unk(node, frame)
         row = ex.rows[('job_groups', 'staged')]
         rowenv = {jga: ('job_groups', row, tabs[0].cols), d.alias: (None, drow, d.cols)}
@@ -1728,22 +1758,22 @@ def commit_scenario(prog: sf.SqlProgram) -> Tuple[Scenario, Dict[str, Any]]:
             if parts[-1] == 'job_id' and (len(parts) == 1 or parts[-2] in (ja, 'jobs')):
                 return jid
             return None
-        want = {('>=0', repr(ex.case.norm(jid - S))), ('>0', repr(ex.case.norm(S + Lin({'NU': 1}, 0) - jid)))}
-        got = set()
+        want = [('>=0', jid - S), ('>0', S + Lin({'NU': 1}, 0) - jid)]
+        got: List[Tuple[str, Lin]] = []
         for c in sel.residual:
             at = _lin_atom(ex, c, frame, colsym)
             if at is None:
                 raise AnalysisError(f'commit_batch_update: condition `{text(c)[:60]}` of the jobs update is not a range condition the abstraction understands')
-            got.add((at[0], repr(at[1])))
+            got.append(at)
         problems = []
         if [value_key(v) for v in sel.pinned(ja, 'batch_id')] != [value_key(B)]:
             problems.append('jobs of every batch are selected (jobs.batch_id is not pinned to in_batch_id)')
-        if got != want:
-            if got < want:
-                problems.append(f'the jobs updated are not restricted to the id range reserved by this update (start_job_id <= job_id < start_job_id + n_jobs): conditions found {sorted(got) or "none"}. '
-                                'Running or finished jobs of earlier updates are re-evaluated (a Running job set back to Ready is executed twice)')
-            else:
-                raise AnalysisError(f'commit_batch_update: range conditions {sorted(got)} of the jobs update are not the canonical ones {sorted(want)}')
+        extra, missing = _same_atoms(ex, got, want)
+        if extra:
+            raise AnalysisError(f'commit_batch_update: range conditions {[(k, repr(l)) for k, l in got]} of the jobs update are not the canonical ones {[(k, repr(l)) for k, l in want]}')
+        if missing:
+            problems.append(f'the jobs updated are not restricted to the id range reserved by this update (start_job_id <= job_id < start_job_id + n_jobs): conditions found {[(k, repr(l)) for k, l in got] or "none"}. '
+                            'Running or finished jobs of earlier updates are re-evaluated (a Running job set back to Ready is executed twice)')
         if problems:
             raise Mismatch('jobs', st, '; '.join(problems), kind='other batch' if 'every batch' in problems[0] else 'range')
         row = ex.rows[('jobs', 'child')]
@@ -1768,7 +1798,7 @@ def commit_scenario(prog: sf.SqlProgram) -> Tuple[Scenario, Dict[str, Any]]:
         ex.writes.append((frame.routine, st, ('jobs', 'child')))
         return True
     scn.update_hooks.append(recount)
-    return scn, {'B': B, 'U': U, 'S': S, 'CH': CH, 'SG': SG}
+    return scn, {'B': B, 'U': U, 'S': S, 'CH': CH, 'SG': SG, 'SS': Lin({'one_row': 1, 'other_rows': 1}, 0)}
 
 
 def _parents_aggregate(ex: AbsExec, scn: Scenario, sel: Sel, d: Inst, ja: str, frame: Frame, st: N, B: Sym, CH: Sym, S: Lin) -> Optional[Dict[str, Any]]:
@@ -1841,7 +1871,7 @@ def _parents_aggregate(ex: AbsExec, scn: Scenario, sel: Sel, d: Inst, ja: str, f
         if parts[-1] == 'job_id' and len(parts) > 1 and parts[-2] in (ea, 'job_parents'):
             return jid
         return None
-    want = {('>=0', repr(ex.case.norm(jid - S))), ('>0', repr(ex.case.norm(S + Lin({'NU': 1}, 0) - jid)))}
+    want = [('>=0', jid - S), ('>0', S + Lin({'NU': 1}, 0) - jid)]
     per_class: List[N] = []
     if [value_key(v) for v in isel.pinned(ea, 'batch_id')] not in ([value_key(B)], []):
         raise Mismatch('jobs', st, 'the parent edges are read from another batch', kind='other batch')
@@ -1849,7 +1879,7 @@ def _parents_aggregate(ex: AbsExec, scn: Scenario, sel: Sel, d: Inst, ja: str, f
         refs_child = any(x.kind == 'col' and colsym(x) is not None for x in c.walk())
         if refs_child:
             at = _lin_atom(ex, c, frame, colsym)
-            if at is None or (at[0], repr(at[1])) not in want:
+            if at is None or _same_atoms(ex, [at], want)[0]:
                 raise AnalysisError(f'recount: condition `{text(c)[:60]}` on the child id inside the derived table is not one of the canonical range conditions')
             continue
         per_class.append(c)
@@ -1929,3 +1959,417 @@ def run_commit(prog: sf.SqlProgram, scn: Scenario, syms: Dict[str, Any], case: C
     ex = AbsExec(prog, scn, case)
     ex.call('commit_batch_update', {'in_batch_id': syms['B'], 'in_update_id': syms['U'], 'in_timestamp': Sym('commit_timestamp')})
     return ex
+
+
+# ======================================================================================
+# Part 2: who may write job_group_self_and_ancestors, and in which shape
+# ======================================================================================
+#
+# Every roll-up (tallies, staged job counts, completion walk, cancellation) TRUSTS that the closure table holds, for each group g,
+# exactly the rows (g, a, distance) for a = g and every ancestor a of g.  That holds by induction on creation order iff the only
+# writers are, in the transaction that inserts the job_groups row of g with parent p:
+#   (self)       INSERT (b, g, g, 0)
+#   (ancestors)  INSERT .. SELECT b, g, ancestor_id, level + 1 FROM the table WHERE batch_id = b AND job_group_id = p   - EVERY row of p,
+#                its self row included, nothing filtered -, for every g that is not the root.
+# Any other writer is reported when it is decidably different, and declined (AnalysisError) when it cannot be analysed.
+
+Result = Tuple[str, str, str, str, int]  # ('ok' | 'bad', construct key, message / detail, file, line)
+
+
+def _py_binding(e: sf.Embedded, st: N) -> Dict[int, str]:
+    from . import sqlrules as sr
+    params = sr.params_in_order(st)
+    args_node = e.call.args[1] if len(e.call.args) > 1 else None
+    elts = sr.args_tuple(e.fn, args_node)
+    if elts is None or len(elts) != len(params):
+        raise AnalysisError(f'{e.module.rel}::{e.qual}: cannot bind the {len(params)} parameters of `{text(st)[:60]}` to Python expressions')
+    return {id(p): pf.nsrc(x) for p, x in zip(params, elts)}
+
+
+def closure_writers(prog: sf.SqlProgram, tier: str = 'quick') -> List[Tuple[sf.Embedded, N]]:
+    from .common import read_repo
+    for r in prog.routines.values():
+        for st in sf.all_statements(r.ast.body):
+            if any(t.lower() == CLOSURE for t, _ in sf.written_tables(st)):
+                raise AnalysisError(f'{CLOSURE} is written by the stored routine {r.name} ({r.file}): this writer is not analysed')
+    out: List[Tuple[sf.Embedded, N]] = []
+    dirs = ['batch/batch'] if tier != 'thorough' else ['batch', 'ci', 'hail/python/hailtop/batch_client', 'auth', 'monitoring']
+    for rel in pf.walk_py(dirs):
+        try:
+            src = read_repo(rel)
+        except Exception:
+            continue
+        if CLOSURE not in src:
+            continue
+        m = pf.load(rel)
+        for e in sf.embedded_in(m):
+            if e.sql_text is None or CLOSURE not in e.sql_text:
+                continue
+            sts = e.stmts()
+            if e.parse_error:
+                if any(w in e.sql_text.upper() for w in ('INSERT', 'UPDATE ', 'DELETE', 'REPLACE')) and 'SELECT' not in e.sql_text.upper().split(CLOSURE.upper())[0][-40:]:
+                    raise AnalysisError(f'{rel}::{e.qual}: SQL mentioning {CLOSURE} does not parse ({e.parse_error})')
+                continue
+            for st in sts:
+                if any(t.lower() == CLOSURE for t, _ in sf.written_tables(st)):
+                    out.append((e, st))
+    return out
+
+
+def check_closure_writers(prog: sf.SqlProgram, tier: str = 'quick') -> List[Result]:
+    from . import sqlrules as sr
+    res: List[Result] = []
+    schema = full_schema(prog)
+    writers = closure_writers(prog, tier)
+    if not writers:
+        raise AnalysisError(f'no writer of {CLOSURE} found (anchor vanished)')
+    by_fn: Dict[Tuple[str, str], List[Tuple[sf.Embedded, N]]] = {}
+    for e, st in writers:
+        by_fn.setdefault((e.module.rel, e.qual), []).append((e, st))
+    for (rel, qual), sites in by_fn.items():
+        m = sites[0][0].module
+        fn = sites[0][0].fn
+        cons = f'{rel}::{qual}'
+        if fn is None:
+            raise AnalysisError(f'{cons}: {CLOSURE} written at module level')
+        selfs: List[Tuple[sf.Embedded, N, Dict[str, str]]] = []
+        ancs: List[Tuple[sf.Embedded, N, Dict[str, Any]]] = []
+        for e, st in sites:
+            if st.kind != 'insert':
+                raise AnalysisError(f'{cons}: `{text(st)[:70]}` ({st.kind.upper()} on {CLOSURE}) is outside the two canonical writers; not analysed')
+            if st.cols is None or sorted(c.lower() for c in st.cols) != ['ancestor_id', 'batch_id', 'job_group_id', 'level']:
+                raise AnalysisError(f'{cons}: insert into {CLOSURE} without the explicit column list (batch_id, job_group_id, ancestor_id, level)')
+            bind = _py_binding(e, st) if e.method != 'execute_many' else None
+            if st.select is None:
+                if len(st.rows) != 1:
+                    raise AnalysisError(f'{cons}: multi-row VALUES insert into {CLOSURE}')
+                row = {c.lower(): x for c, x in zip(st.cols, st.rows[0])}
+
+                def pyv(x: N) -> str:
+                    if x.kind == 'param':
+                        return bind[id(x)] if bind is not None else '%s'
+                    return 'lit:' + text(x)
+                if e.method == 'execute_many':
+                    v = python_rows_verdict(m, fn, e, st)
+                    res.append((v[0], f'{cons}::{"ancestor rows" if v[0] == "ok" else "rows assembled in Python"}', v[1], m.path, e.lineno))
+                    if v[0] == 'ok':
+                        elt = {c.lower(): pf.nsrc(x) for c, x in zip(st.cols, e.call.args[1].elt.elts)}
+                        ancs.append((e, st, {'group': elt['job_group_id'], 'parent': 'parent_job_group_id', 'batch': elt['batch_id']}))
+                    continue
+                vals = {c: pyv(x) for c, x in row.items()}
+                if vals['ancestor_id'] == vals['job_group_id'] and vals['level'] in ('0', 'lit:0'):
+                    selfs.append((e, st, vals))
+                    res.append(('ok', f'{cons}::self row', vals, m.path, e.lineno))
+                else:
+                    res.append(('bad', f'{cons}::other row', f'a single row (job_group_id={vals["job_group_id"]}, ancestor_id={vals["ancestor_id"]}, level={vals["level"]}) is inserted into {CLOSURE}: neither the self row '
+                                '(g, g, 0) nor a copy of the parent\'s rows; the closure table no longer holds exactly the ancestor closure that every roll-up walks', m.path, e.lineno))
+                continue
+            # INSERT .. SELECT
+            sub = st.select
+            tabs = [t.lower() for t in sf.table_names(sub.frm)] if sub.frm is not None else []
+            if tabs != [CLOSURE] or sub.frm.joins or sub.group or sub.having is not None or sub.distinct or getattr(sub, 'union', None):
+                raise AnalysisError(f'{cons}: rows for {CLOSURE} are selected from {tabs or "?"} with joins / grouping: not the canonical copy of the parent\'s rows; not analysed')
+            assert bind is not None
+
+            def value_of(x: N) -> Any:
+                if x.kind == 'param':
+                    return Sym('py:' + bind[id(x)])
+                if x.kind == 'lit':
+                    return x.value
+                raise Undecided(text(x))
+            sel = SelBuilder(schema, lambda n: False, value_of).build(sub.frm, sub.where)
+            alias = list(sel.insts)[0]
+            pins = {c: sel.pinned(alias, c) for c in ('batch_id', 'job_group_id', 'ancestor_id', 'level')}
+            problems: List[str] = []
+            if len(pins['job_group_id']) != 1 or not isinstance(pins['job_group_id'][0], Sym):
+                problems.append('the source rows are not those of ONE group (job_group_id is not pinned to the parent)')
+            if len(pins['batch_id']) != 1:
+                problems.append('the source rows are not restricted to the batch')
+            filt = [f'{c} = {pins[c][0]!r}' for c in ('ancestor_id', 'level') if pins[c]] + [text(c) for c in sel.residual]
+            if filt or sub.limit is not None:
+                problems.append(f'the copy of the parent\'s rows is FILTERED ({", ".join(filt) or "LIMIT"}): the ancestors it drops never count the jobs of the new group (n_jobs, tallies, completion, cancellation)')
+            cols = {c.lower(): x for c, (x, _) in zip(st.cols, sub.cols)}
+
+            def is_src(x: N, col: str) -> bool:
+                return x.kind == 'col' and x.parts[-1].lower() == col
+            if not is_src(cols['ancestor_id'], 'ancestor_id'):
+                problems.append(f'ancestor_id receives `{text(cols["ancestor_id"])}` instead of the source row\'s ancestor_id')
+            ev_ = AbsEval(Case(Domain({}, {})))
+            try:
+                lv = lin_of(ev_.ev(cols['level'], lambda n: Lin({'level': 1}, 0) if (n.kind == 'col' and n.parts[-1].lower() == 'level') else (_ for _ in ()).throw(Undecided(text(n)))))
+            except (Undecided, AnalysisError, NeedSplit):
+                lv = None
+            if lv is None or not (lv - Lin({'level': 1}, 1)).is_const() or (lv - Lin({'level': 1}, 1)).const != 0:
+                problems.append(f'level receives `{text(cols["level"])}`, expected the source level + 1 (distance to the ancestor grows by one; listings select children by level = 1)')
+            gx = cols['job_group_id']
+            gpy = bind[id(gx)] if gx.kind == 'param' else None
+            if gpy is None:
+                problems.append(f'job_group_id receives `{text(gx)}` instead of the new group\'s id')
+            bx = cols['batch_id']
+            bpy = bind[id(bx)] if bx.kind == 'param' else ('src' if is_src(bx, 'batch_id') else None)
+            if bpy is None:
+                problems.append(f'batch_id receives `{text(bx)}`')
+            info = {'group': gpy, 'parent': pins['job_group_id'][0].name[3:] if pins['job_group_id'] and isinstance(pins['job_group_id'][0], Sym) else None,
+                    'batch': pins['batch_id'][0].name[3:] if pins['batch_id'] and isinstance(pins['batch_id'][0], Sym) else None}
+            if info['parent'] is not None and info['parent'] == gpy:
+                problems.append('the rows are copied from the new group itself, not from its parent')
+            if problems:
+                res.append(('bad', f'{cons}::ancestor rows', f'`{text(st)[:80]}`: ' + '; '.join(problems), m.path, e.lineno))
+            else:
+                ancs.append((e, st, info))
+                res.append(('ok', f'{cons}::ancestor rows', info, m.path, e.lineno))
+        if not selfs and not ancs:
+            continue
+        # the pair, in the function that inserts the job_groups row
+        jg_ins = [(e2, s2) for e2 in sf.embedded_in(m) if e2.fn is fn and not e2.parse_error for s2 in e2.stmts() if s2.kind == 'insert' and s2.table.lower() == 'job_groups']
+        if len(selfs) != 1 or len(ancs) != 1 or len(jg_ins) != 1:
+            if len(selfs) == 0 and len(ancs) == 1 and len(jg_ins) == 1:
+                res.append(('bad', f'{cons}::self row', f'{qual} copies the parent\'s rows but never inserts the self row (g, g, 0): the group\'s own jobs are not counted in the group, and its children copy an incomplete chain',
+                            m.path, ancs[0][0].lineno))
+                continue
+            if len(ancs) == 0 and len(selfs) == 1 and len(jg_ins) == 1 and not any(r_[1].startswith(cons) for r_ in res):
+                res.append(('bad', f'{cons}::ancestor rows', f'{qual} inserts the self row but never copies the parent\'s rows: no ancestor ever counts the jobs of the new group', m.path, selfs[0][0].lineno))
+                continue
+            if any(r_[1].startswith(cons) for r_ in res):
+                continue
+            raise AnalysisError(f'{cons}: expected one self-row insert, one copy of the parent\'s rows and one INSERT INTO job_groups in the same function (found {len(selfs)}, {len(ancs)}, {len(jg_ins)})')
+        (es, ss, sv), (ea, sa, ai), (ej, sj) = selfs[0], ancs[0], jg_ins[0]
+        jb = _py_binding(ej, sj)
+        jrow = {c.lower(): (jb[id(x)] if x.kind == 'param' else text(x)) for c, x in zip(sj.cols or [], sj.rows[0])} if sj.select is None and sj.rows else {}
+        same = sv['job_group_id'] == ai['group'] == jrow.get('job_group_id') and sv['batch_id'] == ai['batch'] == jrow.get('batch_id')
+        recv = {es.receiver, ea.receiver, ej.receiver}
+        msg = ''
+        if not same:
+            msg = (f'the three inserts do not concern the same group: job_groups ({jrow.get("batch_id")}, {jrow.get("job_group_id")}), self row ({sv["batch_id"]}, {sv["job_group_id"]}), '
+                   f'ancestor rows for ({ai["batch"]}, {ai["group"]})')
+        elif len(recv) != 1:
+            msg = f'the closure rows and the job_groups row are written through different connections / transactions ({sorted(recv)}): a reader can see the group without its closure'
+        res.append(('bad' if msg else 'ok', f'{cons}::same group, same transaction', msg or {'group': ai['group'], 'parent': ai['parent'], 'batch': ai['batch']}, m.path, ea.lineno))
+        # guards: the copy runs for every non-root group, the self row always
+        G = ai['group']
+        allowed = {f'{G} != ROOT_JOB_GROUP_ID', f'ROOT_JOB_GROUP_ID != {G}', f'{G} != 0', f'{G} > ROOT_JOB_GROUP_ID', f'{G} > 0'}
+        for label, e_ in (('ancestor rows', ea), ('self row', es)):
+            ifs = sr.enclosing_ifs(m, e_.call, stop=fn)
+            loops = [l for l in sr.enclosing_loops(m, e_.call) if any(l is x for x in ast.walk(fn))]
+            bad_if = [(i, b) for i, b in ifs if not (label == 'ancestor rows' and b and pf.nsrc(i.test) in allowed)]
+            if loops:
+                raise AnalysisError(f'{cons}: the {label} insert sits in a loop; not analysed')
+            if bad_if:
+                i, b = bad_if[0]
+                t = pf.nsrc(i.test)
+                if label == 'self row' or (ai['parent'] and ai['parent'] in t) or G in t:
+                    res.append(('bad', f'{cons}::{label} unconditional', f'the {label} of a new group {"are" if label.startswith("anc") else "is"} written only when `{"" if b else "not "}{t}`: groups for which the test fails get '
+                                f'{"no ancestor rows: none of their ancestors counts their jobs" if label.startswith("anc") else "no self row"}', m.path, e_.lineno))
+                    continue
+                raise AnalysisError(f'{cons}: the {label} insert is guarded by `{t}`; not analysed')
+            res.append(('ok', f'{cons}::{label} unconditional', {'guards': [pf.nsrc(i.test) for i, _ in ifs]}, m.path, e_.lineno))
+    return res
+
+
+# -- rows assembled in Python -----------------------------------------------------------
+#
+# Abstract value of a Python expression that holds a list of (ancestor_id, level) pairs:  Chain(base, shift, has_self) = "the closure
+# rows of group `base`, levels shifted by `shift`, with / without the (base, base, 0 + shift) row".  `base` is the source text of the
+# expression naming the group, or 'parent(<text>)'.  The rows inserted for a new group g with parent p are right iff they are exactly
+# Chain(p, +1, with self).
+
+class _Top(Exception):
+    pass
+
+
+def python_rows_verdict(m: pf.Module, fn: pf.FuncDef, e: sf.Embedded, st: N) -> Tuple[str, Any]:
+    params = {a.arg for a in fn.args.args + fn.args.kwonlyargs + fn.args.posonlyargs}
+    if 'job_group_id' not in params or 'parent_job_group_id' not in params:
+        raise AnalysisError(f'{m.rel}::{e.qual}: rows for {CLOSURE} are assembled in Python and the function does not have the (job_group_id, parent_job_group_id) parameters: not analysed')
+    G, P = 'job_group_id', 'parent_job_group_id'
+    rows = e.call.args[1] if len(e.call.args) > 1 else None
+    cols = [c.lower() for c in st.cols]
+    if not isinstance(rows, ast.ListComp) or len(rows.generators) != 1 or rows.generators[0].ifs or not isinstance(rows.elt, ast.Tuple) or len(rows.elt.elts) != len(cols) \
+            or any(x.kind != 'param' for x in st.rows[0]):
+        raise AnalysisError(f'{m.rel}::{e.qual}: rows for {CLOSURE} are assembled in Python in a form that is not analysed')
+    gen = rows.generators[0]
+    elt = {c: x for c, x in zip(cols, rows.elt.elts)}
+    if not (isinstance(gen.target, ast.Tuple) and len(gen.target.elts) == 2 and all(isinstance(x, ast.Name) for x in gen.target.elts)):
+        raise AnalysisError(f'{m.rel}::{e.qual}: Python-assembled closure rows: comprehension target not recognised')
+    a_name, l_name = gen.target.elts[0].id, gen.target.elts[1].id
+    if pf.nsrc(elt['job_group_id']) != G or pf.nsrc(elt['ancestor_id']) != a_name:
+        raise AnalysisError(f'{m.rel}::{e.qual}: Python-assembled closure rows: (job_group_id, ancestor_id) = ({pf.nsrc(elt["job_group_id"])}, {pf.nsrc(elt["ancestor_id"])}) not recognised')
+    k0 = _shift_of(elt['level'], l_name)
+    if k0 is None:
+        raise AnalysisError(f'{m.rel}::{e.qual}: Python-assembled closure rows: level expression `{pf.nsrc(elt["level"])}` not recognised')
+    _MEMO.clear()
+    try:
+        facts: Set[Tuple[str, int, bool, str]] = set()
+        for _round in range(6):  # fixpoint over definition cycles (cache entries derived from cache look-ups); facts are capped in depth
+            del _CUT[:]
+            _ACTIVE.clear()
+            size = sum(len(v) for v in _MEMO.values())
+            facts = {(b, s + k0, h, why) for b, s, h, why in _chains(m, fn, gen.iter, G, P, 0)}
+            if sum(len(v) for v in _MEMO.values()) == size:
+                break
+        else:
+            raise _Top('no fixpoint')
+        del _CUT[:]
+    except _Top as t:
+        raise AnalysisError(f'{m.rel}::{e.qual}: the rows inserted into {CLOSURE} are assembled in Python from `{pf.nsrc(gen.iter)}`; its contents cannot be determined ({t}); '
+                            'the canonical writer is INSERT .. SELECT of every row of the parent with level + 1')
+    wrong = [(b, s, h, why) for b, s, h, why in facts if (b, s, h) != (P, 1, True)]
+    if not wrong:
+        if _CUT or not facts:
+            raise AnalysisError(f'{m.rel}::{e.qual}: the rows inserted into {CLOSURE} are assembled in Python through a cyclic definition (cache filled from its own look-ups); not decided')
+        return 'ok', {'python_assembled': True, 'facts': sorted((b, s, h) for b, s, h, _ in facts)}
+    b, s, h, why = sorted(wrong, key=lambda f: (f[0].count('parent('), f[1], f[0], f[3]))[0]
+    if b == f'parent({P})' and s == 2:
+        lack = 'they contain the rows of the parent\'s parent shifted by two, i.e. every proper ancestor of the parent, but NOT the parent itself (parent, level 1)'
+    elif b == P and not h:
+        lack = 'they lack the parent\'s own row (parent, level 1)'
+    else:
+        lack = f'they are the closure rows of `{b}` with levels shifted by {s}{"" if h else ", without its self row"}'
+    return 'bad', (f'the rows inserted into {CLOSURE} for a new group are assembled in Python from `{pf.nsrc(gen.iter)}`; on the path where {why}, {lack}: expected every row of the parent, its self row included, with '
+                   'level + 1.  A nested group whose parent row is missing is never counted by the parent: the parent reports n_jobs / tallies without the child\'s jobs and is complete while they run')
+
+
+def _shift_of(e: ast.expr, l_name: str) -> Optional[int]:
+    if isinstance(e, ast.Name) and e.id == l_name:
+        return 0
+    if isinstance(e, ast.BinOp) and isinstance(e.op, (ast.Add, ast.Sub)) and isinstance(e.left, ast.Name) and e.left.id == l_name and isinstance(e.right, ast.Constant) and isinstance(e.right.value, int):
+        return e.right.value if isinstance(e.op, ast.Add) else -e.right.value
+    if isinstance(e, ast.BinOp) and isinstance(e.op, ast.Add) and isinstance(e.right, ast.Name) and e.right.id == l_name and isinstance(e.left, ast.Constant) and isinstance(e.left.value, int):
+        return e.left.value
+    return None
+
+
+def _chains(m: pf.Module, fn: pf.FuncDef, e: ast.AST, G: str, P: str, depth: int) -> Set[Tuple[str, int, bool, str]]:
+    """Set of (base, shift, has_self, path description).  A definition cycle (cache entry derived from a cache look-up) is cut at the
+    re-entry: the facts of the acyclic paths are still found, and `_CUT` records that the set is a lower bound only."""
+    if depth > 12:
+        raise _Top('definition chain too deep')
+    if id(e) in _ACTIVE:
+        _CUT.append(True)
+        return set(_MEMO.get(id(e), set()))
+    _ACTIVE.add(id(e))
+    try:
+        out = _chains0(m, fn, e, G, P, depth)
+        out = {(b, min(s_, 5), h, why) for b, s_, h, why in out if b.count('parent(') <= 2}
+        _MEMO[id(e)] = set(_MEMO.get(id(e), set())) | out
+        return out
+    finally:
+        _ACTIVE.discard(id(e))
+
+
+_ACTIVE: Set[int] = set()
+_CUT: List[bool] = []
+_MEMO: Dict[int, Set[Tuple[str, int, bool, str]]] = {}
+
+
+def _chains0(m: pf.Module, fn: pf.FuncDef, e: ast.AST, G: str, P: str, depth: int) -> Set[Tuple[str, int, bool, str]]:
+    if isinstance(e, ast.Await):
+        return _chains(m, fn, e.value, G, P, depth)
+    if isinstance(e, ast.Name):
+        defs = pf.assignments(fn).get(e.id, [])
+        out: Set[Tuple[str, int, bool, str]] = set()
+        if not defs:
+            raise _Top(f'`{e.id}` has no definition in the function')
+        for d in defs:
+            if isinstance(d, ast.arg):
+                raise _Top(f'`{e.id}` is a parameter')
+            if isinstance(d, ast.Constant) and d.value is None:
+                continue
+            if not isinstance(d, ast.expr):
+                raise _Top(f'`{e.id}` is bound by {type(d).__name__}')
+            out |= _chains(m, fn, d, G, P, depth + 1)
+        return out
+    if isinstance(e, ast.ListComp) and len(e.generators) == 1 and not e.generators[0].ifs:
+        g = e.generators[0]
+        it = g.iter
+        # rows read from the table: [(record['ancestor_id'], record['level']) async for record in tx.execute_and_fetchall(SELECT ..)]
+        if isinstance(it, ast.Call) and isinstance(it.func, ast.Attribute) and it.func.attr in ('execute_and_fetchall', 'select_and_fetchall') and isinstance(g.target, ast.Name):
+            emb = [x for x in sf.embedded_in(m) if x.call is it]
+            if len(emb) != 1 or emb[0].parse_error or len(emb[0].stmts()) != 1:
+                raise _Top('query of the comprehension not parsed')
+            q = emb[0].stmts()[0]
+            bind = _py_binding(emb[0], q)
+            if q.kind != 'select' or q.frm is None or [t.lower() for t in sf.table_names(q.frm)] != [CLOSURE] or q.frm.joins or q.group or q.limit is not None or q.distinct:
+                raise _Top('query is not a plain read of the closure table')
+            pins: Dict[str, str] = {}
+            for c in sf.conjuncts(q.where):
+                if c.kind == 'bin' and c.op == '=' and c.left.kind == 'col' and c.right.kind == 'param':
+                    pins[c.left.parts[-1].lower()] = bind[id(c.right)]
+                else:
+                    raise _Top(f'query filters the rows by `{text(c)}`')
+            if set(pins) != {'batch_id', 'job_group_id'}:
+                raise _Top(f'query pins {sorted(pins)}')
+            if not isinstance(e.elt, ast.Tuple) or [pf.nsrc(x) for x in e.elt.elts] != [f"{g.target.id}['ancestor_id']", f"{g.target.id}['level']"]:
+                raise _Top('comprehension does not build (ancestor_id, level) pairs')
+            return {(pins['job_group_id'], 0, True, f'the chain of `{pins["job_group_id"]}` is read from the table')}
+        if isinstance(g.target, ast.Tuple) and len(g.target.elts) == 2 and all(isinstance(x, ast.Name) for x in g.target.elts) and isinstance(e.elt, ast.Tuple) and len(e.elt.elts) == 2:
+            a_name, l_name = g.target.elts[0].id, g.target.elts[1].id
+            k = _shift_of(e.elt.elts[1], l_name)
+            if not (isinstance(e.elt.elts[0], ast.Name) and e.elt.elts[0].id == a_name) or k is None:
+                raise _Top(f'comprehension `{pf.nsrc(e)[:60]}` does not map (ancestor_id, level) to (ancestor_id, level + k)')
+            return {(b, s + k, h, why) for b, s, h, why in _chains(m, fn, it, G, P, depth + 1)}
+        raise _Top(f'comprehension `{pf.nsrc(e)[:60]}` not recognised')
+    # chain of the parent shifted by one, plus the new group's own row  =  the full chain of the new group
+    if isinstance(e, ast.BinOp) and isinstance(e.op, ast.Add):
+        for xs, lit in ((e.left, e.right), (e.right, e.left)):
+            if isinstance(lit, ast.List) and len(lit.elts) == 1 and isinstance(lit.elts[0], ast.Tuple) and len(lit.elts[0].elts) == 2:
+                who, lvl = lit.elts[0].elts
+                if pf.nsrc(who) == G and isinstance(lvl, ast.Constant) and lvl.value == 0:
+                    out = set()
+                    for b, sh, h, why in _chains(m, fn, xs, G, P, depth + 1):
+                        if (b, sh, h) == (P, 1, True):
+                            out.add((G, 0, True, why))
+                        else:
+                            out.add((b, sh, h, why))  # a wrong chain stays wrong with one more row
+                    return out
+        raise _Top(f'list concatenation `{pf.nsrc(e)[:60]}` not recognised')
+    # look-up in a per-request cache:  D.get(K) / D[K]
+    key = None
+    if isinstance(e, ast.Call) and isinstance(e.func, ast.Attribute) and e.func.attr == 'get' and isinstance(e.func.value, ast.Name) and len(e.args) == 1:
+        dname, key = e.func.value.id, e.args[0]
+    elif isinstance(e, ast.Subscript) and isinstance(e.value, ast.Name):
+        dname, key = e.value.id, e.slice
+    if key is not None:
+        kt = pf.nsrc(key)
+        stores = [n for n in pf.walk_shallow(fn) if isinstance(n, ast.Assign) and len(n.targets) == 1 and isinstance(n.targets[0], ast.Subscript) and isinstance(n.targets[0].value, ast.Name)
+                  and n.targets[0].value.id == dname]
+        other = [n for n in ast.walk(fn) if isinstance(n, ast.Call) and isinstance(n.func, ast.Attribute) and isinstance(n.func.value, ast.Name) and n.func.value.id == dname
+                 and n.func.attr in ('update', 'setdefault', 'pop', 'clear', '__setitem__')]
+        if other or not stores:
+            raise _Top(f'the mapping `{dname}` is filled in a way that is not analysed')
+        _need_fresh_mapping(m, fn, dname)
+        out = set()
+        for s_ in stores:
+            sk = pf.nsrc(s_.targets[0].slice)
+            for b, sh, h, why in _chains(m, fn, s_.value, G, P, depth + 1):
+                # re-key the stored fact relative to the key it is stored under, then instantiate it with the key looked up
+                # express the base relative to the key it is stored under (the parent parameter is parent(<group parameter>)), then instantiate
+                b2 = b.replace(P, f'parent({G})') if sk == G else b
+                if sk not in b2:
+                    raise _Top(f'`{dname}[{sk}]` holds the chain of `{b}`')
+                nb = b2.replace(sk, kt)
+                where = 'was created earlier in the same request' if sk == G else 'was looked up earlier in the same request'
+                out.add((nb, sh, h, f'`{kt}` {where} (entry stored by `{pf.nsrc(s_)[:70]}`)'))
+        return out
+    raise _Top(f'expression `{pf.nsrc(e)[:60]}` not recognised')
+
+
+def _need_fresh_mapping(m: pf.Module, fn: pf.FuncDef, dname: str) -> None:
+    """The mapping is local, or a parameter that every caller in the module binds to a local `{}` it does not fill itself."""
+    params = {a.arg for a in fn.args.args + fn.args.kwonlyargs + fn.args.posonlyargs}
+    if dname not in params:
+        return
+    for node in ast.walk(m.tree):
+        if isinstance(node, ast.Call) and pf.call_name(node) == fn.name:
+            kw = [k for k in node.keywords if k.arg == dname]
+            if not kw:
+                continue
+            caller = m.enclosing_func(node)
+            v = kw[0].value
+            if caller is None or not isinstance(v, ast.Name):
+                raise _Top(f'caller passes `{pf.nsrc(v)}` as {dname}')
+            d = pf.single_def(caller, v.id)
+            if not (isinstance(d, ast.Dict) and not d.keys):
+                raise _Top(f'caller\'s `{v.id}` is not a fresh empty dict')
+            if any(isinstance(n, ast.Assign) and any(isinstance(t, ast.Subscript) and isinstance(t.value, ast.Name) and t.value.id == v.id for t in n.targets) for n in ast.walk(caller)):
+                raise _Top(f'caller fills `{v.id}` itself')
